@@ -54,7 +54,9 @@ func vfC15GenIPs(t *rapid.T) vfC15IPScenario {
 		s.PodENI = &v
 	}
 	if rapid.Bool().Draw(t, "hasmode") {
-		v := g.TextField(t, s.Kind, func(t *rapid.T) string { return rapid.SampledFrom([]string{"eniOnly", "default", "ENIONLY"}).Draw(t, "m") }, "", nil)
+		v := g.TextField(t, s.Kind, func(t *rapid.T) string {
+			return rapid.SampledFrom([]string{"eniOnly", "default", "ENIONLY"}).Draw(t, "m")
+		}, "", nil)
 		s.NodeMode = &v
 	}
 	return s
